@@ -31,14 +31,21 @@ EV_FNS = ['src/piecewise.rs: PiecewiseEvaluator::new', 'src/piecewise.rs: Piecew
 PROPS = {
     'C01': {
         'verus': ['u_polyeval'],
-        'kani': {},
+        'kani': {'quick': [{'set': 'c01', 'jobs': 8, 'timeout': 1500, 'extra': ['--solver', 'kissat'],
+                            'harnesses': [H(f'c01_polyn_{n}', 'poly', f'length {n}; integer-valued coefficients in [-100,100]; x in {{0, 1, -1, 2}}', False,
+                                            ['src/poly.rs: impl Evaluate for PolyN :: evaluate']) for n in (0, 1, 2, 3, 4)]}],
+                 'thorough': [{'set': 'c01', 'jobs': 8, 'timeout': 6000, 'extra': ['--solver', 'kissat'],
+                               'harnesses': [H(f'c01_polyn_{n}', 'poly', f'length {n}; integer-valued coefficients in [-100,100]; x in {{0, 1, -1, 2}}', False,
+                                               ['src/poly.rs: impl Evaluate for PolyN :: evaluate']) for n in (0, 1, 2, 3, 4, 5, 6, 8)]}]},
         'probe': True,
-        'level': 'proof',
+        'level': 'other',
         'explanation': 'Verus contracts on the real bodies of Poly0..Poly8::evaluate and Log<T>::evaluate: result == sum_i c_i x^i '
-                       '(psum/pw spec) in the exact-real float model, for all coefficient vectors and arguments.',
+                       '(psum/pw spec) in the exact-real float model, for all coefficient vectors and arguments (proof). PolyN::evaluate (iterator fold, outside '
+                       'the Verus subset): Kani harness, bit-equal to the Horner recursion h(i) = h(i+1).mul_add(x, c[i]), empty = 0.0, for lengths 0..4 (quick) / 0..8 '
+                       '(thorough), integer-valued coefficients and x in {0, 1, -1, 2} (bounded).',
         'assumptions': [FM_NOTE, FM_BITS, Z3W,
                         'rounding-error clause (4(n+2)u bound) is NOT decided: exact-mode only',
-                        'PolyN::evaluate (iterator fold) is outside the Verus subset: decided only by the bounded Kani harness when present'],
+                        'PolyN::evaluate (iterator fold) is outside the Verus subset: decided only by the bounded Kani harness (lengths, integer-valued coefficients, 4 arguments); that Horner equals sum c_i x^i is elementary'],
     },
     'C02': {
         'verus': ['u_pwsel'],
@@ -110,8 +117,8 @@ PROPS['C08'] = {
 }
 
 
-def kset(name, harnesses, jobs=8, timeout=1800):
-    return {'set': name, 'jobs': jobs, 'timeout': timeout, 'harnesses': harnesses}
+def kset(name, harnesses, jobs=8, timeout=1800, extra=None):
+    return {'set': name, 'jobs': jobs, 'timeout': timeout, 'harnesses': harnesses, 'extra': extra or []}
 
 
 PWD = ['src/piecewise.rs: impl HasDerivative for Piecewise<T> :: derivative', 'src/piecewise.rs: impl HasDerivative for Segment<T> :: derivative']
@@ -217,6 +224,66 @@ PROPS['C15'] = {
     'assumptions': [PARAM, 'bounded: N <= 3 pieces (quick) / 4 (thorough) for the Piecewise-level loops',
                     'that the operation on each concrete piece type acts pointwise is C14'],
 }
+
+
+SMALL = 'numbers range over integer-valued doubles in [-100,100] (exact arithmetic; CBMC float circuits are otherwise intractable)'
+
+PROPS['C09'] = {
+    'verus': ['u_log'],
+    'kani': {},
+    'probe': True,
+    'level': 'proof',
+    'explanation': 'Verus contracts on the real bodies of Log<Poly0..Poly8>::{indefinite, integral}, IntOfLog<T>::{evaluate, translate} and '
+                   'IntOfLogPoly4::{evaluate, translate}: evaluate returns k + v*q(ln v) (postcondition taken from the property, not from the code); '
+                   'indefinite returns k = 0 and coefficients with q_K = p_K, q_i + (i+1) q_{i+1} = p_i (quartic: a=-p0, 2b=a+p1, 3c=b-p2, 4d=c+p3, u=24(d-p4), '
+                   'with lemma_quartic_is_antiderivative_form reducing it to the same recurrence); integral(knot) additionally satisfies F(knot.x) == knot.y. '
+                   'Exact-real float model, ln/exp uninterpreted with the axioms listed.',
+    'assumptions': [FM_NOTE, FM_BITS, TY_NOTE, Z3W,
+                    'Evaluate contracts of Poly0..Poly8 are assumed in this unit (external_body) and discharged by the C01 unit u_polyeval',
+                    'calculus step d/dt[t*q(ln t)] = q(ln t) + q\'(ln t) = sum (q_i + (i+1) q_{i+1}) (ln t)^i is textbook mathematics, not machine-checked',
+                    'for the quartic form the antiderivative claim uses the closed-form tail (exact outside the thresholds; inside them the 16-term series differs by the truncation error, see C10)'],
+}
+PROPS['C10'] = {
+    'verus': ['u_log'],
+    'kani': {},
+    'probe': True,
+    'level': 'other',
+    'explanation': 'Decided (Verus, exact-real model, real bodies): IntOfLogPoly4::evaluate returns k + v*(sum_{j=1..4} c_j x^j + u x^5 T(x)) with x = -ln v; '
+                   'T is the 16-term series sum_{m<16} x^m/(m+5)! (all 16 literal constants checked as exact reciprocals of factorials) strictly inside the two '
+                   'thresholds (the doubles nearest -1.71 and 1.72) and T*x^5 = e^x - sum_{j<5} x^j/j! outside (including the recip().recip() detour). '
+                   'NOT decided by any contract: the floating-point accuracy claim (error <= 1e-12 * sum of magnitudes) and the size of the jump at the switch points in '
+                   'floating point; these are unchecked assumptions of this check. The native probe evaluates that accuracy clause on a dense battery only when an '
+                   'obligation fails, to produce a concrete input.',
+    'assumptions': [FM_NOTE, FM_BITS, TY_NOTE, Z3W,
+                    'UNCHECKED: floating-point accuracy 1e-12 (cancellation analysis of exp(x)-1-... near the thresholds) - no installed verifier has float semantics for it',
+                    'UNCHECKED: truncation error of the 16-term series on (-1.71, 1.72) (Lagrange remainder of exp; analytic fact)',
+                    'a change that only moves the thresholds inward/outward keeps both branch formulas valid and is invisible to the contracts'],
+}
+PROPS['C14'] = {
+    'verus': ['u_ops', 'u_polycalc', 'u_log'],
+    'kani': {
+        'quick': [kset('c14',
+                       [H(f'c14_translate_poly{k}', 'poly', SMALL if k else None, k == 0, [f'src/poly.rs: impl Translate for Poly{k} :: translate']) for k in range(0, 9)] +
+                       [H(f'c14_translate_polyn_{n}', 'poly', f'length {n}', False, ['src/poly.rs: impl Translate for PolyN :: translate']) for n in (0, 1, 3)] +
+                       [H(f'c14_mulassign_poly{k}', 'poly', SMALL + '; scalar in {0, -1, 2, 0.5, 3}', False,
+                          [f'src/poly.rs: impl MulAssign<f64> for Poly{k} :: mul_assign']) for k in range(0, 9)] +
+                       [H('c14_log_wrapper', 'log_poly', None, True, ['src/log_poly.rs: Log<T>::{mul, mul_assign, translate}']),
+                        H('c14_intoflog_wrapper', 'log_poly', SMALL + '; scalar in {2, -1, 0.5, 0}', False, ['src/log_poly.rs: IntOfLog<T>::{add, neg, mul, mul_assign, translate}']),
+                        H('c14_quartic_add_sub', 'log_poly', SMALL, False, ['src/log_poly.rs: IntOfLogPoly4::{add, sub, translate} and the by-reference add/sub'])],
+                       timeout=2400, extra=['--solver', 'kissat'])],
+    },
+    'probe': True,
+    'level': 'other',
+    'explanation': 'Verus contracts (exact-real model + secondary bit-level lane assertions) on the real bodies of Mul<f64>, Neg, Add for Poly0..Poly8 and '
+                   'IntOfLogPoly4::{Mul, Neg}, and of translate for Poly0..Poly8, IntOfLog<T>, IntOfLogPoly4: every lane is s*c, -c, c1+c2; translate changes the additive '
+                   'constant only. Kani (bit-precise, compiled crate): translate of every PolyK and PolyN (empty -> constant c), `*=` equals `*` lane by lane for a finite '
+                   'scalar set and integer-valued coefficients; the generic wrappers Log<T>/IntOfLog<T> with a recording piece type; IntOfLogPoly4 +/- by value and by reference.',
+    'assumptions': [FM_NOTE, FM_BITS, TY_NOTE,
+                    'bounded (Kani): `*=`, the IntOfLog<T> wrapper and IntOfLogPoly4 +/- are checked for integer-valued operands in [-100,100] and scalars from {0, -1, 2, 0.5, 3}; PolyN::translate for lengths 0, 1, 3',
+                    PARAM + ' (used for the generic wrappers Log<T>, IntOfLog<T>)',
+                    'bit-level lane assertions ([bits]) are secondary: their failure alone is reported only with a concrete failing input'],
+}
+PROPS['C14']['kani']['thorough'] = PROPS['C14']['kani']['quick']
 
 
 def mp(name, module, what):
